@@ -26,6 +26,7 @@ import (
 	"github.com/sourcenetwork/defradb/internal/core"
 	"github.com/sourcenetwork/defradb/internal/datastore"
 	"github.com/sourcenetwork/defradb/internal/encryption"
+	"github.com/sourcenetwork/defradb/internal/keys"
 )
 
 func putBlock(
@@ -143,6 +144,40 @@ func determineBlockEncryption(
 	}
 
 	// otherwise we use the same encryption as the previous block
+	encBlock, encLink, err := encryptionOfHeads(ctx, heads, false)
+	if err != nil || encBlock != nil {
+		return encBlock, encLink, err
+	}
+
+	// A field that is written for the first time by an update has no previous block of its own
+	// to take the encryption from. If the whole document is encrypted, the heads of the document
+	// itself (composite) link to the document-level key, which covers every field of the document.
+	if len(heads) == 0 && fieldName.HasValue() && docID != "" {
+		docHeadset := NewHeadSet(txn.Headstore(), keys.HeadstoreDocKey{
+			DocID:   docID,
+			FieldID: core.COMPOSITE_NAMESPACE,
+		})
+		docHeads, _, err := docHeadset.List(ctx)
+		if err != nil {
+			return nil, cidlink.Link{}, NewErrGettingHeads(err)
+		}
+		return encryptionOfHeads(ctx, docHeads, true)
+	}
+
+	return nil, cidlink.Link{}, nil
+}
+
+// encryptionOfHeads returns the encryption block (and the link to it) used by the first of the given
+// heads that is encrypted, or nil if none of them is.
+//
+// If docLevelOnly is true, only document-level encryption (not bound to an individual field) is considered.
+func encryptionOfHeads(
+	ctx context.Context,
+	heads []cid.Cid,
+	docLevelOnly bool,
+) (*Encryption, cidlink.Link, error) {
+	txn := datastore.CtxMustGetTxn(ctx)
+
 	for _, headCid := range heads {
 		prevBlockBytes, err := txn.Blockstore().AsIPLDStorage().Get(ctx, headCid.KeyString())
 		if err != nil {
@@ -160,6 +195,9 @@ func determineBlockEncryption(
 			prevEncBlock, err := GetEncryptionBlockFromBytes(prevBlockEncBytes)
 			if err != nil {
 				return nil, cidlink.Link{}, err
+			}
+			if docLevelOnly && prevEncBlock.FieldName != nil {
+				continue
 			}
 			return &Encryption{
 				DocID:     prevEncBlock.DocID,
